@@ -220,4 +220,70 @@ pub fn run_unixapi(out: &mut dyn Write) {
         writeln!(out, "unixapi\tlong-run-then-other-destinations\t{}", res).unwrap();
         for n in &names { let _ = std::fs::remove_file(format!("/tmp/ccp/{}", n)); }
     }
+
+    // ---- the runtime on the in-process channel transport, polling: a backlog is queued before it starts.
+    //      Datagrams the runtime must ignore (undecodable, unknown type with stray bytes after its declared
+    //      length, a measurement for a flow nobody created) do not change what it does with the ones behind them.
+    {
+        use portus::serialize::{self, create, measure};
+        let cr = |sid: u32| serialize::serialize(&create::Msg { sid, init_cwnd: 14480, mss: 1448, src_ip: 1, src_port: 4242, dst_ip: 2, dst_port: 4242, cong_alg: None }).unwrap();
+        let ms = |sid: u32, v: u64| serialize::serialize(&measure::Msg { sid, program_uid: 1, num_fields: 1, fields: vec![v] }).unwrap();
+        let junk: [(&str, Vec<u8>); 4] = [("undecodable", vec![0xff, 0xff, 0xff, 0xff]),
+            ("unknown-type-with-stray-bytes", vec![9, 0, 8, 0, 1, 0, 0, 0, 0, 0, 0x60, 0]),
+            ("unknown-type", vec![9, 0, 8, 0, 1, 0, 0, 0]),
+            ("measurement-for-no-flow", ms(77, 5))];
+        let run = |dgrams: Vec<Vec<u8>>| -> Option<Vec<String>> {
+            let (to_ccp, from_dp) = crossbeam::channel::unbounded::<Vec<u8>>();
+            let (to_dp, _from_ccp) = crossbeam::channel::unbounded::<Vec<u8>>();
+            for d in dgrams { to_ccp.send(d).unwrap(); }
+            let log = Arc::new(std::sync::Mutex::new(Vec::<String>::new()));
+            let h = Arc::new(AtomicBool::new(true));
+            let (tx, rx) = mpsc::channel();
+            let (l2, h2) = (log.clone(), h.clone());
+            std::thread::spawn(move || {
+                let sk = portus::ipc::chan::Socket::<Nonblocking>::new(to_dp, from_dp);
+                let rb = RunBuilder::new(BackendBuilder { sock: sk }).default_alg(LogAlg(l2)).with_stop_handle(h2);
+                let _ = tx.send(crate::util::catch(|| rb.run().map_err(|e| e.0)));
+            });
+            let t0 = std::time::Instant::now();
+            while !to_ccp.is_empty() && t0.elapsed() < Duration::from_secs(3) { std::thread::sleep(Duration::from_millis(2)); }
+            std::thread::sleep(Duration::from_millis(40));
+            h.store(false, Ordering::SeqCst);
+            match rx.recv_timeout(Duration::from_secs(4)) { Ok(Some(_)) => {} _ => return None }
+            let l = log.lock().unwrap().clone();
+            Some(l)
+        };
+        for (kind, j) in junk.iter() {
+            let clean = vec![cr(1), ms(1, 10), cr(2), ms(2, 20), ms(1, 11)];
+            let mut dirty = vec![j.clone()];
+            for (i, d) in clean.iter().enumerate() { dirty.push(d.clone()); if i % 2 == 1 { dirty.push(j.clone()); } }
+            let res = match (run(clean), run(dirty)) {
+                (Some(a), Some(b)) if a == b && a.len() == 5 => "same-dispatch".to_string(),
+                (Some(a), Some(b)) if a == b => format!("backlog-not-dispatched: {}", a.join("/")),
+                (Some(a), Some(b)) => format!("with-the-ignored-datagrams: {} without: {}", b.join("/"), a.join("/")),
+                _ => "PANIC-or-did-not-stop".to_string(),
+            };
+            writeln!(out, "unixapi\tchan-run {}\t{}", kind, res).unwrap();
+        }
+    }
+}
+
+struct LogAlg(Arc<std::sync::Mutex<Vec<String>>>);
+struct LogFlow(Arc<std::sync::Mutex<Vec<String>>>);
+impl Flow for LogFlow {
+    fn on_report(&mut self, s: u32, m: Report) { self.0.lock().unwrap().push(format!("REP-{}-{}", s, m.program_uid)); }
+    fn close(&mut self) { self.0.lock().unwrap().push("CLOSE".to_string()); }
+}
+impl<I: Ipc> CongAlg<I> for LogAlg {
+    type Flow = LogFlow;
+    fn name() -> &'static str { "log" }
+    fn datapath_programs(&self) -> HashMap<&'static str, String> {
+        let mut h = HashMap::new();
+        h.insert("p", "(def (Report (x 0))) (when true (report))".to_string());
+        h
+    }
+    fn new_flow(&self, _c: Datapath<I>, i: DatapathInfo) -> LogFlow {
+        self.0.lock().unwrap().push(format!("NEW-{}-{}-{}", i.sock_id, i.init_cwnd, i.mss));
+        LogFlow(self.0.clone())
+    }
 }
